@@ -129,9 +129,13 @@ def lattice_xy(chk, rng, count):
             continue
         if i % 3 == 0:
             # call history: the same position against ANOTHER reference origin, then the first one again
-            ref2 = (ref_lat + 0.013, ref_lon - 0.021)
+            ref2 = [(ref_lat + 0.013, ref_lon - 0.021), (ref_lat, ref_lon - 0.021), (ref_lat + 0.013, ref_lon)][(i // 3) % 3]      # another origin; same parallel; same meridian
             xa, ya = latlon_to_xy(float(lat), float(lon), ref2[0], ref2[1])
             lat_b, lon_b = xy_to_latlon(xa, ya, ref2[0], ref2[1])
+            o2 = latlon_to_xy(ref2[0], ref2[1], ref2[0], ref2[1])
+            if o2 != (0.0, 0.0):
+                chk.violation("after conversions against another origin, the new reference origin maps to %r" % (o2,), dict(sc, second_reference=ref2), klass={"check": "call_history_origin"})
+                continue
             x3, y3 = latlon_to_xy(float(lat), float(lon), ref_lat, ref_lon)
             n += 1
             if abs(float(lat_b) - float(lat)) > 1e-10 or abs(float(lon_b) - float(lon)) > 1e-10 or (x3, y3) != (x2, y2):
